@@ -266,12 +266,18 @@ class FermionicArray(AbelianArray):
         return AbelianArray.clip(self.phase_sync(), a_min, a_max)
 
     def _map_blocks(self, fn_block=None, fn_sector=None):
+        if fn_sector is not None:
+            # need to update phase keys as well, n.b. phases of sectors that
+            # are no longer present (e.g. truncated or misaligned) are inert
+            # and their old keys need not map to valid new sectors -> drop
+            new_phases = {
+                fn_sector(s): p
+                for s, p in self._phases.items()
+                if s in self._blocks
+            }
         super()._map_blocks(fn_block, fn_sector)
         if fn_sector is not None:
-            # need to update phase keys as well
-            self.modify(
-                phases={fn_sector(s): p for s, p in self._phases.items()}
-            )
+            self.modify(phases=new_phases)
 
     def transpose(self, axes=None, phase=True, inplace=False):
         """Transpose the fermionic array, by default accounting for the phases
